@@ -181,17 +181,21 @@ pub fn c17(ctx: &Ctx) -> (Report, Meta) {
     }
     // FromIterator / try_push paths give the same result as From<&str>
     for s in all.iter().take(5000) {
-        let a: Df88591String<7> = s.chars().collect();
-        let b = Df88591String::<7>::from(s.as_str());
-        let c: ArrayString<7> = s.chars().collect();
-        let d = ArrayString::<7>::from(s.as_str());
-        if a != b || c != d {
-            rep.violation("C17", "collect-vs-from".into(), format!("collect() and From<&str> disagree for {}", esc(s)), s.len() as u64, json!({"kind":"text_conv","n":7,"chars":s.chars().map(|c| c as u32).collect::<Vec<_>>()}));
+        let r = catch(|| {
+            let a: Df88591String<7> = s.chars().collect();
+            let b = Df88591String::<7>::from(s.as_str());
+            let c: ArrayString<7> = s.chars().collect();
+            let d = ArrayString::<7>::from(s.as_str());
+            a == b && c == d
+        });
+        if !matches!(r, Ok(true)) {
+            rep.violation("C17", "collect-vs-from".into(), format!("collect() and From<&str> disagree or panic for {}: {:?}", esc(s), r), s.len() as u64, json!({"kind":"text_conv","n":7,"chars":s.chars().map(|c| c as u32).collect::<Vec<_>>()}));
         }
     }
     // message round trips with descriptor strings
     let ds = desc_strings();
     for s in &ds {
+        let built = catch(|| {
         let d = || Df88591String::<31>::from(s.as_str());
         let mut msgs: Vec<(Message, &str)> = vec![];
         if let Message::Msg1007(mut t) = decode_zero(1007) {
@@ -237,6 +241,15 @@ pub fn c17(ctx: &Ctx) -> (Report, Meta) {
             }
             msgs.push((Message::Msg1302(t), "1302"));
         }
+        msgs
+        });
+        let msgs = match built {
+            Ok(m) => m,
+            Err(p) => {
+                rep.violation("C17", format!("desc-conv-panic:{}", p.location), format!("converting {} to a descriptor field panicked: {}", esc(s), p.message), s.len() as u64, json!({"kind":"text_conv","n":31,"chars":s.chars().map(|c| c as u32).collect::<Vec<_>>()}));
+                continue;
+            }
+        };
         if msgs.len() != 8 {
             rep.violation("C17", "zero-base-not-typed".into(), format!("only {} of the 8 descriptor-string messages decode from a zero payload", msgs.len()), 0, json!({"kind":"text_message"}));
         }
@@ -276,7 +289,13 @@ pub fn c17(ctx: &Ctx) -> (Report, Meta) {
             texts.push(std::iter::repeat('\u{20ac}').take(n).collect());
         }
         for s in &texts {
-            let m = mk1029(s).unwrap();
+            let m = match catch(|| mk1029(s).unwrap()) {
+                Ok(m) => m,
+                Err(p) => {
+                    rep.violation("C17", format!("text-conv-panic:{}", p.location), format!("converting a text of {} bytes to the UTF-8 field panicked: {}", s.len(), p.message), s.len() as u64, json!({"kind":"text_conv","n":255,"chars":s.chars().map(|c| c as u32).collect::<Vec<_>>()}));
+                    continue;
+                }
+            };
             // what the field holds after conversion decides whether the encoder must refuse
             let held = ref_utf8_prefix(s, 255);
             let must_refuse = held.chars().count() > 127 || held.len() > 255;
